@@ -30,7 +30,17 @@ class ClientRig:
             if self.deferred is not None:
                 self.deferred.append(r)
             else:
-                self.client.on_response(self.client.tx_cobid, r, 0.0)
+                self._rx(r)
+
+    def _rx(self, r):
+        """hand a response to the client the way a bus interface does: in its receive buffer, which it reuses
+        for the next frame once the callback has returned"""
+        buf = sx.new_bytearray(sx.items(r))
+        self.client.on_response(self.client.tx_cobid, buf, 0.0)
+        self.nrx = getattr(self, "nrx", 0) + 1
+        junk = sx.items(sx.fresh_bytes("rxbuf%d" % self.nrx, len(buf)))
+        for i in range(len(buf)):
+            buf[i] = junk[i]
 
     def enable_deferred(self):
         """responses are delivered only when the client starts waiting on its queue (models delivery
@@ -40,7 +50,7 @@ class ClientRig:
         def hook(kind, obj):
             if kind == "queue":
                 while self.deferred:
-                    self.client.on_response(self.client.tx_cobid, self.deferred.pop(0), 0.0)
+                    self._rx(self.deferred.pop(0))
         sx.env().delivery_hook = hook
 
 
